@@ -133,7 +133,7 @@ class BasicBlockNode:
         except IndexError:
             return None
 
-    def _block_index(self, index: int) -> int:
+    def block_index_of(self, index: int) -> int:
         """Translate an index over the instructions into an index over the basic block.
 
         Besides instructions, a basic block may contain pseudo-instructions (TryBegin,
@@ -183,7 +183,7 @@ class BasicBlockNode:
                 instr_index += 1
                 continue
 
-            yield self._block_index(instr_index), instr
+            yield self.block_index_of(instr_index), instr
 
             # Update the instr_index to retarget at the original instruction
             while (
